@@ -143,7 +143,7 @@ func (c *Ctx) codecOps(tr *an.Tracer, p an.Path) []codecOp {
 		op := codecOp{cs: cs, method: m, width: c.widthOf(tr, m, cs.Common.Args), stream: cs.Common.Args[0].Name()}
 		if strings.HasPrefix(m, "Put") {
 			if len(cs.Common.Args) > 1 {
-				op.label = c.valueLabel(tr, cs.Common.Args[1])
+				op.label = c.valueLabel(tr, onPath(cs.Common.Args[1], p))
 			}
 		} else if call, ok := cs.Instr.(*ssa.Call); ok {
 			op.label = c.destLabel(tr, call)
@@ -193,4 +193,37 @@ func matchSpec(ops []codecOp, spec []specItem) []string {
 
 func arrayLen(a *ssa.Alloc) int64 {
 	return arrayLenOfType(a)
+}
+
+// onPath resolves a join to the value it has on this path: the incoming value of the edge the path takes into the
+// join's block (`x := a; if c { x |= 1 }; Put(x)` writes `a|1` on one path and `a` on the other).
+func onPath(v ssa.Value, p an.Path) ssa.Value {
+	for n := 0; n < 8; n++ {
+		phi, ok := v.(*ssa.Phi)
+		if !ok {
+			return v
+		}
+		k := -1
+		for i, b := range p.Blocks {
+			if b == phi.Block() {
+				k = i
+			}
+		}
+		if k <= 0 {
+			return v
+		}
+		pred := p.Blocks[k-1]
+		found := false
+		for i, pb := range phi.Block().Preds {
+			if pb == pred {
+				v = phi.Edges[i]
+				found = true
+				break
+			}
+		}
+		if !found {
+			return v
+		}
+	}
+	return v
 }
